@@ -59,6 +59,7 @@ type Desc struct {
 	Ins  []int    `json:"ins"`
 	Out  int      `json:"out"`
 	Fee  int      `json:"fee"`
+	Bl   int      `json:"bl"` // blocks between the returned basis and the manager's tip at return
 	Made [][2]int `json:"made"`
 }
 
@@ -73,6 +74,7 @@ type txrec struct {
 	st    string // "out", "pool"
 	exp   int    // tick at which the reservation lapses
 	dup   bool
+	bl    int // see Desc.Bl
 }
 
 // stampStore wraps the wallet's store: every Fund/Redistribute/Split/Balance/SpendableOutputs
@@ -204,16 +206,19 @@ type world struct {
 	addr    types.Address
 	stub    string // self-test: "nolock" makes the harness-visible wallet forget its reservations
 
-	nm    namer
-	vals  map[types.SiacoinOutputID]types.Currency // value of every output the harness has seen created
-	txs   map[int]*txrec
-	locks map[types.SiacoinOutputID]int // harness mirror of the reservations: id -> expiry tick
-	now   int
-	t0    time.Time
-	timed bool // enforce the tick windows (rt in 1..maxRt)
-	late  bool
-	nblk  int
-	nonce atomic.Int64
+	nm      namer
+	vals    map[types.SiacoinOutputID]types.Currency // value of every output the harness has seen created
+	txs     map[int]*txrec
+	locks   map[types.SiacoinOutputID]int // harness mirror of the reservations: id -> expiry tick
+	now     int
+	t0      time.Time
+	timed   bool // enforce the tick windows (rt in 1..maxRt)
+	late    bool
+	nblk    int
+	lag     int           // blocks the manager has accepted and the wallet store has not been fed
+	blocks  []types.Block // every block added to the manager, in order (to grow a competing chain)
+	genesis types.Block
+	nonce   atomic.Int64
 }
 
 func cur(v int) types.Currency { return types.NewCurrency64(uint64(v)) }
@@ -262,6 +267,7 @@ func newWorld(cfg Cfg, outs []Out, ctr *atomic.Int64, stub string) (*world, erro
 	// keep one unrelated output so the genesis transaction is never empty
 	gtxn.SiacoinOutputs = append(gtxn.SiacoinOutputs, types.SiacoinOutput{Value: types.Siacoins(1), Address: types.VoidAddress})
 	genesis.Transactions = []types.Transaction{gtxn}
+	wd.genesis = genesis
 
 	dbs, tipState, err := chain.NewDBStore(chain.NewMemDB(), network, genesis, nil)
 	if err != nil {
@@ -376,6 +382,7 @@ func (wd *world) poolBlock() error {
 		return err
 	}
 	wd.nblk++
+	wd.blocks = append(wd.blocks, b)
 	return wd.sync()
 }
 
@@ -398,6 +405,7 @@ func (wd *world) rewardBlock(vs ...int) ([]types.SiacoinOutputID, error) {
 		return nil, err
 	}
 	wd.nblk++
+	wd.blocks = append(wd.blocks, b)
 	var ids []types.SiacoinOutputID
 	for i, v := range vs {
 		ids = append(ids, b.ID().MinerOutputID(i+1))
@@ -469,7 +477,7 @@ func sortedInts(s []int) []int {
 // describe turns a funded transaction into the specification's descriptor and computes, with
 // types.Currency, whether the inputs are distinct and whether value is conserved.
 func (wd *world) describe(t *txrec) (d Desc, dup, cons bool) {
-	d = Desc{Tid: t.tid, Ver: t.ver, Ins: []int{}, Made: [][2]int{}}
+	d = Desc{Tid: t.tid, Ver: t.ver, Ins: []int{}, Made: [][2]int{}, Bl: t.bl}
 	var in, out types.Currency
 	seen := map[types.SiacoinOutputID]bool{}
 	add := func(id types.SiacoinOutputID, v types.Currency) {
@@ -538,7 +546,7 @@ func (wd *world) reserve(t *txrec) {
 // once (and flagged) so that the session can go on.
 func (wd *world) fund(ver, amt int, unc bool) (ev, *txrec) {
 	e := ev{"op": "Fund", "ver": ver, "amt": amt, "unc": unc, "d": []Desc{}, "dup": false, "cons": true}
-	t := &txrec{ver: ver, st: "out"}
+	t := &txrec{ver: ver, st: "out", bl: wd.lag}
 	// every transaction is unique (two requests may legitimately select the same inputs once a
 	// reservation is over; identical transactions would share one id)
 	nonce := []byte(fmt.Sprintf("verif-%d-%d", wd.nm.nextTx, wd.nonce.Add(1)))
@@ -565,6 +573,10 @@ func (wd *world) fund(ver, amt int, unc bool) (ev, *txrec) {
 		}
 		var toSign []int
 		t.basis, toSign, err = wd.w.FundV2Transaction(&t.v2, cur(amt), unc)
+		t.bl = wd.basisLag(t.basis)
+		if storeTip, _ := wd.es.Tip(); err == nil && amt > 0 && t.basis != storeTip {
+			e["badbasis"] = fmt.Sprintf("returned basis %v, the store's tip (which the selected elements' proofs are valid for) is %v", t.basis, storeTip)
+		}
 		if err == nil && wd.stub == "nolock" {
 			wd.w.ReleaseInputs(nil, []types.V2Transaction{t.v2})
 		}
@@ -652,7 +664,7 @@ func (wd *world) redistribute(n, amt, fpb int) (ev, []*txrec) {
 	for i := range txns {
 		txns[i].ArbitraryData = []byte(fmt.Sprintf("verif-r-%d", wd.nonce.Add(1))) // unique, see fund
 		wd.w.SignV2Inputs(&txns[i], toSign[i])
-		t := &txrec{ver: 2, st: "out", v2: txns[i], basis: basis, tid: wd.nm.nextTx}
+		t := &txrec{ver: 2, st: "out", v2: txns[i], basis: basis, tid: wd.nm.nextTx, bl: wd.basisLag(basis)}
 		wd.nm.nextTx++
 		d, dup, c := wd.describe(t)
 		cons = cons && c && !dup
@@ -692,7 +704,7 @@ func (wd *world) split(n, mn int) ev {
 		return e
 	}
 	e["r"] = "ok"
-	t := &txrec{ver: 2, st: "pool", v2: txn, tid: wd.nm.nextTx}
+	t := &txrec{ver: 2, st: "pool", v2: txn, tid: wd.nm.nextTx, bl: wd.lag}
 	wd.nm.nextTx++
 	d, dup, cons := wd.describe(t)
 	e["d"] = []Desc{d}
@@ -791,6 +803,76 @@ func (wd *world) broadcast(t *txrec) (e ev) {
 		t.st = "pool"
 	}
 	return e
+}
+
+// basisLag is how many blocks the basis a call returned is behind the manager's tip.  A v1
+// transaction and SplitUTXO hand no basis back: they count as "the wallet's tip".
+func (wd *world) basisLag(basis types.ChainIndex) int {
+	if basis == (types.ChainIndex{}) {
+		return wd.lag
+	}
+	return int(wd.cm.Tip().Height) - int(basis.Height)
+}
+
+// lagBegin lets the chain manager accept k blocks the wallet store is not fed.  fork > 0: the
+// manager first abandons the last `fork` blocks (all empty, indexed by the store) for a competing
+// chain that is k blocks longer -- the store's tip is then on a dead branch.
+func (wd *world) lagBegin(k, fork int) (ev, error) {
+	if fork > 0 {
+		db, tip, err := chain.NewDBStore(chain.NewMemDB(), wd.network, wd.genesis, nil)
+		if err != nil {
+			return nil, err
+		}
+		twin := chain.NewManager(db, tip)
+		if err := twin.AddBlocks(wd.blocks[:len(wd.blocks)-fork]); err != nil {
+			return nil, err
+		}
+		var alt []types.Block
+		for i := 0; i < fork+k; i++ {
+			b, ok := coreutils.MineBlock(twin, types.VoidAddress, 10*time.Second)
+			if !ok {
+				return nil, errors.New("failed to mine fork block")
+			} else if err := twin.AddBlocks([]types.Block{b}); err != nil {
+				return nil, err
+			}
+			alt = append(alt, b)
+		}
+		if err := wd.cm.AddBlocks(alt); err != nil {
+			return nil, err
+		}
+		wd.blocks = append(wd.blocks[:len(wd.blocks)-fork], alt...)
+	} else {
+		for i := 0; i < k; i++ {
+			cs := wd.cm.TipState()
+			b := types.Block{ParentID: cs.Index.ID, Timestamp: types.CurrentTimestamp(),
+				MinerPayouts: []types.SiacoinOutput{{Address: types.VoidAddress, Value: cs.BlockReward()}}}
+			if !coreutils.FindBlockNonce(cs, &b, 10*time.Second) {
+				return nil, errors.New("failed to mine lag block")
+			} else if err := wd.cm.AddBlocks([]types.Block{b}); err != nil {
+				return nil, err
+			}
+			wd.blocks = append(wd.blocks, b)
+		}
+	}
+	tip, err := wd.es.Tip()
+	if err != nil {
+		return nil, err
+	}
+	if got := int(wd.cm.Tip().Height) - int(tip.Height); got != k {
+		return nil, fmt.Errorf("lag is %d, wanted %d", got, k)
+	}
+	wd.lag = k
+	wd.nblk += k
+	return ev{"op": "Lag", "k": k, "fork": fork}, nil
+}
+
+// catchUp feeds the store everything it missed.
+func (wd *world) catchUp() (ev, error) {
+	if err := wd.sync(); err != nil {
+		return nil, err
+	}
+	wd.lag = 0
+	return ev{"op": "CatchUp"}, nil
 }
 
 // mineAllowed mirrors the specification's guard ~DanglingV2: no v2 transaction still with its
